@@ -66,6 +66,7 @@ def run(ctx, broken):
     entries = ["fs 706c6f6e6b || %s" % src for (_, src) in cs[:3 if ctx.tier == "quick" else len(cs)]]
     lines += r.emit("emitv", entries, ctx.seed + 7, 0)
     lines += shifted_openings(ctx, lines)
+    lines += unbound_key_commitments(ctx, lines)
     r.run(lines)
     st = r.report()
     st["forced_proofs"] = sum(1 for l in lines if "forced" in l.split(" ")[0])
